@@ -12,7 +12,7 @@ from ..engine import Space
 PROPERTY = "C18"
 LEVEL = "model_checking"
 VARIANTS = ["asan"]
-RULE = ("all histories of <=2 (quick) / <=3 (thorough) calls over 26 call kinds after create(full, 50 ms limit) on one instance, with a status "
+RULE = ("all histories of <=2 (quick) / <=3 (thorough) calls over 28 call kinds after create(full, 50 ms limit) on one instance, with a status "
         "probe after every call; two-instance interleavings of 2 calls each; creation variants (full/basic/empty); invalid handles (NULL, foreign "
         "memory, destroyed); states = (globals set, config loaded, instance age) contexts reached, transitions = API calls; non-trivial = history "
         "contains a failing or limit-hitting call before another call")
@@ -40,6 +40,9 @@ CALLS = {
     "high-bytes": ("s", 'diag_log "\xff\xfe"', 0, ["\xff\xfe"]),
     "read-config": ("s", 'diag_log str [getNumber (configFile >> "ApiCfg" >> "v")]', 0, None),
     "pp-only": ("p", "#define A 7\nA", 0, []),
+    # __EVAL runs code while PREPROCESSING, outside any run: it is a run of its own (own time budget, no stale stop request)
+    "eval-macro": ("s", "diag_log str [__EVAL(1 + 2), __EVAL(\"a\" + \"b\")]", 0, ['[3,"ab"]']),
+    "pp-eval-macro": ("p", "A __EVAL(1 + 2) B", 0, []),
     # macro definitions belong to the call that makes them: GV / ApiCfg below are plain names in every other call
     "define-macro": ("s", '#define GV 9\n#define ApiCfg Nope\ndiag_log "dm"', 0, ["dm"]),
     "pp-only-define": ("p", "#define GV 9\n#define diag_log hint\nGV", 0, []),
@@ -74,7 +77,7 @@ def gen_misc():
     for a, b in itertools.product(["set-global", "log", "error-middle", "load-config", "late-logger", "assembly-bad", "assembly-ok", "parse-error", "pp-error", "load-config-bad"], repeat=2):
         yield ["two", [a, b]]
     for gap_ms in (0, 30, 60, 5000):
-        for c in ("value", "late-logger", "log"):
+        for c in ("value", "late-logger", "log", "eval-macro", "pp-eval-macro", "load-config"):
             yield ["aged", [gap_ms, c]]
 
 
@@ -112,7 +115,7 @@ def judge_call(kind, step_res, status_res, ud, cd, gv_set, cfg_loaded, tag, case
         return [("C18|%s|logging-incomplete-or-foreign|%s" % (kind, context), "%s: call %s delivered diag_log payloads %r, expected %r" % (tag, kind, got_logs, want), None, case)]
     if code == -6 and ty == "s" and kind not in ("nonterminating", "sleeper-past-limit") and not any(c["sev"] <= 1 for c in cbs):
         return [("C18|%s|error-not-logged|%s" % (kind, context), "%s: failing call %s delivered no error-level diagnostic" % (tag, kind), None, case)]
-    if code == 0 and ty == "s" and any(c["sev"] == 0 for c in cbs):
+    if code == 0 and ty in ("s", "p") and any(c["sev"] == 0 for c in cbs):
         return [("C18|%s|fatal-diagnostic-on-success|%s" % (kind, context), "%s: successful call %s delivered a fatal diagnostic: %r" % (tag, kind, [c["msg"][:80] for c in cbs if c["sev"] == 0][:1]), None, case)]
     return v
 
